@@ -21,6 +21,38 @@ def _reaches(F, a, b, avoid=None):
     return False
 
 
+def buffers_disjoint(chk):
+    """br_ssl_engine_set_buffer(buf, buf_len, bidi = 1) splits one caller buffer into the input and the output area: the output
+    area must start where the input area ends and end where the caller's buffer ends (regions inside the caller's memory and
+    disjoint), otherwise incoming record bytes and pending outgoing bytes overwrite each other."""
+    from .. import sym
+    R = 'io-buffers-disjoint'
+    u = build.load_unit(S)
+    F = irf.Units({'u': u}).func('br_ssl_engine_set_buffer')
+    if F is None:
+        raise AnalysisBroken('br_ssl_engine_set_buffer vanished')
+    Sy = sym.Sym(F, leaf_vars=('w',))
+    n = 0
+    for c in F.calls('br_ssl_engine_set_buffers_bidi'):
+        ib, il, ob, ol = (Sy.sym(x) for x in c['ops'][1:5])
+        if ob == Sy.aff({}, 0) or c['ops'][3]['k'] == 'null':
+            continue            # shared buffer / no buffer
+        n += 1
+        inst = 'br_ssl_engine_set_buffer (bidi): output area = [buf + ibuf_len, buf + buf_len)'
+        buf = Sy.atom(('var', 'buf'))
+        want_ob = Sy.aff({**dict(ib[1]), **{k: dict(ib[1]).get(k, 0) + v for k, v in il[1]}}, ib[2] + il[2])
+        end = Sy.aff({**dict(ob[1]), **{k: dict(ob[1]).get(k, 0) + v for k, v in ol[1]}}, ob[2] + ol[2])
+        want_end = Sy.aff({('var', 'buf'): 1, ('var', 'buf_len'): 1}, 0)
+        okk = ib == buf and ob == want_ob and end == want_end
+        det = 'ibuf = %s, ibuf_len = %s, obuf = %s, obuf_len = %s' % tuple(sym.show(x) for x in (ib, il, ob, ol))
+        if okk:
+            chk.ok(R, inst, F.where(c), det)
+        else:
+            chk.violation(R, inst, F.where(c), det + ': the output area does not start at the end of the input area / end at the end of the buffer -- the two areas overlap',
+                          key='%s set_buffer' % R)
+    chk.floor('bidirectional split sites', n, 1)
+
+
 def run(tier):
     chk = report.Check('C06', tier,
                        'Static clauses of state/buffer consistency: the failure latch (only br_ssl_engine_fail and the two buffer-reset functions '
@@ -28,7 +60,7 @@ def run(tier):
                        'BR_SSL_CLOSED alone when closed and sets each of the four flags iff the matching *_buf call returns non-NULL; every *_buf '
                        'returns NULL once failed; the application-data gates of sendapp/recvapp; the half-duplex (shared buffer) mode switch is '
                        'the first effect of recvrec_ack and sendpld_ack on every path; br_ssl_engine_close releases unread application data before it '
-                       'enters the closure handshake (afterwards the record could never be released and no operation would be offered); the transition table of the I/O machine (sa/engio.py, shared with C01: empty records return to ready, consumed windows are recycled, full windows are flushed, sent records open a new one). NOT decided: the pointer/length arithmetic of the six '
+                       'enters the closure handshake (afterwards the record could never be released and no operation would be offered); br_ssl_engine_set_buffer splits a bidirectional buffer into adjacent, disjoint input and output areas ending at the end of the caller's buffer; the transition table of the I/O machine (sa/engio.py, shared with C01: empty records return to ready, consumed windows are recycled, full windows are flushed, sent records open a new one). NOT decided: the pointer/length arithmetic of the six '
                        'buffer registers (run-time invariants).',
                        trusted=['clang/opt 14', 'debug-info struct layouts', 'whole-program store scan'])
     u = build.load_unit(S)
@@ -166,6 +198,7 @@ def run(tier):
         else:
             chk.ok(R, inst, F.where(c))
     chk.floor('obligations', len(chk.obls), 30)
+    buffers_disjoint(chk)
     from . import c19
     c19.close_order(chk)
     # the I/O transition table (shared with C01): a dropped transition leaves the engine open with nothing on offer
